@@ -23,8 +23,20 @@ type decProp struct {
 
 func (d *decProp) Plan(tier string, seed int64) []core.Segment { return d.kinds(tier) }
 
-// CaseCPU bounds the CPU time of one decoder history (they take microseconds).
+// CaseCPU bounds the CPU time of one decoder history.
 func (d *decProp) CaseCPU(tier string) int { return 120 }
+
+// KindCPU: histories on small geometries take microseconds (the most
+// expensive one measured on the unchanged tree: 8 ms), only the big geometries
+// move megabytes.
+func (d *decProp) KindCPU(kind, tier string) int { return decKindCPU(kind) }
+
+func decKindCPU(kind string) int {
+	if len(kind) >= 3 && kind[:3] == "big" {
+		return 120
+	}
+	return 20
+}
 
 func (d *decProp) Gen(kind string, idx int64, seed int64, tier string) core.Case {
 	s := seed
@@ -233,14 +245,18 @@ func init() {
 		base: base{id: "C05", level: "exploration",
 			rule:        "decoder histories in which about half of the WriteBlock/WriteMatch operations carry attacker-chosen values (Offset in {0, window, window+1, window+LitLen.., 2^32-1}, LitLen in {remaining, remaining+1, 2^32-1}, MatchLen in {0,1,2^31,2^32-1}, random uint32) at a random index of an otherwise valid block, in buffer states produced by random valid prefixes; the first malformed index is computed by the model; atomicity is decided through the reported (k,l); the caller's slices are compared with deep copies; non-trivial iff a hostile operation was rejected; distinct = distinct concrete case",
 			assumptions: []string{"BufferSize is kept small so that a huge MatchLen can never be legitimately accepted", "Decoder internals are observed through Flush output only"},
-			mandatory:   []string{"hostile_blocks", "hostile_rejected", "hostile_rejected_after_partial_progress", "hostile_matches", "valid_blocks_with_sequences"}},
+			mandatory:   []string{"hostile_blocks", "hostile_rejected", "hostile_rejected_after_partial_progress", "hostile_matches", "valid_blocks_with_sequences", "hostile_blocks_with_wrapping_sums"}},
 		owned: owned("malformed-accepted", "not-atomic", "caller-modified", "panic", "flush-incomplete", "writer-prefix", "struct-invariant", "oversized-accepted"),
 		kinds: func(tier string) []core.Segment {
 			m := tierScale(tier, 60)
-			return []core.Segment{{Kind: "corpus:buffer", N: 1640}, {Kind: "buffer", N: 16000 * m}, {Kind: "corpus:decoder", N: 820}, {Kind: "decoder", N: 8000 * m}}
+			return []core.Segment{{Kind: "corpus:buffer", N: 1640}, {Kind: "buffer", N: 16000 * m}, {Kind: "corpus:decoder", N: 820}, {Kind: "decoder", N: 8000 * m},
+				{Kind: "wrap:buffer", N: 300 * m}, {Kind: "wrap:decoder", N: 200 * m}}
 		},
 		genC: func(r *rand.Rand, kind string, idx int64, tier string) DCase {
-			_, sut := splitKind(kind)
+			class, sut := splitKind(kind)
+			if class == "wrap" {
+				return wrapDCase(r, sut, idx)
+			}
 			w, b := geometry(r, idx)
 			g := &DGen{SUT: sut, W: w, B: b, N: 25 + r.Intn(30), MaxItem: 2 + r.Intn(b), Hostile: 50}
 			ops := GenDOps(r, g)
@@ -392,6 +408,67 @@ func init() {
 	})
 }
 
+// wrapDCase builds hostile blocks whose 32-bit sums wrap around: many
+// sequences with large LitLen (far beyond the literals the block carries)
+// whose total is congruent to a small number modulo 2^32, on geometries
+// whose BufferSize-WindowSize is large enough that the single values pass
+// every size check. Nothing of such a block may be accepted, so the huge
+// buffers are never allocated.
+func wrapDCase(r *rand.Rand, sut string, idx int64) DCase {
+	geo := [][2]int{{1, 1<<32 - 1}, {0, 0}, {1 << 20, 1 << 31}, {8 << 20, 1 << 30}, {1, 1<<31 + 2}, {1000, 1<<32 - 1}, {0, 1<<32 - 1}}
+	g := geo[int(idx)%len(geo)]
+	w, b := g[0], g[1]
+	ew, eb := effGeometry(w, b)
+	free := int64(eb - ew)
+	var ops []DOp
+	// a short valid prefix
+	for i, n := 0, r.Intn(4); i < n; i++ {
+		ops = append(ops, DOp{K: "write", Data: genLits(r, 1+r.Intn(20))})
+	}
+	for rep, nrep := 0, 1+r.Intn(3); rep < nrep; rep++ {
+		lits := genLits(r, r.Intn(40))
+		op := DOp{K: "block", Data: lits, Hostile: true}
+		// valid small sequences first (partial progress before the rejection)
+		rem := len(lits)
+		for i, n := 0, r.Intn(3); i < n; i++ {
+			l := r.Intn(rem + 1)
+			if l > 4 {
+				l = 4
+			}
+			rem -= l
+			op.Seqs = append(op.Seqs, DSeq{L: uint32(l), M: uint32(r.Intn(6)), OK: 1})
+		}
+		// k large values with sum = t (mod 2^32), t <= remaining literals
+		k := 2 << r.Intn(12) // 2 .. 4096
+		each := (int64(1) << 32) / int64(k)
+		for each > free && k < 1<<20 {
+			k <<= 1
+			each >>= 1
+		}
+		if k > 8192 {
+			k, each = 8192, (int64(1)<<32)/8192
+		}
+		t := int64(r.Intn(rem + 1))
+		for i := 0; i < k; i++ {
+			v := each
+			if i == k-1 {
+				v = (int64(1)<<32 + t - each*int64(k-1)) % (int64(1) << 32)
+			}
+			q := DSeq{L: uint32(v), M: uint32(r.Intn(3)), OK: 1}
+			if r.Intn(4) == 0 {
+				q.M = 0
+			}
+			op.Seqs = append(op.Seqs, q)
+		}
+		ops = append(ops, op)
+		ops = append(ops, DOp{K: "write", Data: genLits(r, 1+r.Intn(8))})
+	}
+	if sut == "decoder" {
+		ops = append(ops, DOp{K: "flush"})
+	}
+	return DCase{WS: w, BS: b, SUT: sut, Ops: ops}
+}
+
 // genWStep draws a fault step: bytes accepted and the error value (the
 // harness' own error, io.ErrShortWrite as bufio.Writer reports it, other
 // standard errors).
@@ -428,6 +505,14 @@ func bigDCase(r *rand.Rand, sut string, idx int64, hostile int) DCase {
 type c18prop struct{ base }
 
 func (p *c18prop) CaseCPU(tier string) int { return 120 }
+
+// KindCPU: the enumerations on small geometries stay far below a second.
+func (p *c18prop) KindCPU(kind, tier string) int {
+	if kind == "big" {
+		return 120
+	}
+	return 30
+}
 
 func (p *c18prop) Plan(tier string, seed int64) []core.Segment {
 	m := tierScale(tier, 30)
